@@ -618,6 +618,14 @@ class Agent(dbus.service.Object):
 
         sock = self._plain_sock.get(conv.key)
         if sock is None:
+            # A second packet socket on the interface would receive a copy
+            # of every incoming frame, so use the listening one if present
+            for (bind_key, bind_sock) in self._bindsocks.items():
+                if bind_key[0] == conv.local_if:
+                    sock = bind_sock
+                    self._plain_sock[conv.key] = sock
+                    break
+        if sock is None:
             self.__logger.debug('New conversation seen %s', conv)
             sock = conv.make_local_socket()
             self._plain_sock[conv.key] = sock
